@@ -35,7 +35,8 @@ type accCtx struct {
 	ptr    ssa.Value // the object inside this function: the Alloc (owner) or the receiver parameter
 	field  int
 	marker *Piece
-	cur    []*Piece // marker ++ what this activation appended so far
+	cur    []*Piece    // marker ++ what this activation appended so far
+	loads  []*ssa.UnOp // owner only: the loads of the accumulator a direct statement was read through
 }
 
 func isByteSliceT(t types.Type) bool {
@@ -212,6 +213,27 @@ func (s *Streamer) objField(obj *ssa.Alloc, field int, at *ssa.UnOp) []*Piece {
 			return unknown(at, "writer object %s is used by %T", obj.Name(), r)
 		}
 	}
+	// a direct statement obj.buf = append(obj.buf, …) must extend the content as
+	// it is at the statement: the load it reads must not be separated from the
+	// store by another operation on the object
+	for _, bops := range ops {
+		for _, op := range bops {
+			st, isSt := op.in.(*ssa.Store)
+			if !isSt {
+				continue
+			}
+			for _, l := range s.directLoads[st] {
+				if l.Block() != st.Block() || !instrBefore(l, st) {
+					return unknown(st, "the accumulator is extended from a copy read in another block")
+				}
+				for _, o2 := range ops[st.Block()] {
+					if o2.in != op.in && instrBefore(l, o2.in) && instrBefore(o2.in, st) {
+						return unknown(st, "the accumulator is extended from a stale copy of its content")
+					}
+				}
+			}
+		}
+	}
 	if first != nil {
 		// the initialising store must come before every other operation
 		for _, bops := range ops {
@@ -258,6 +280,9 @@ func (s *Streamer) directDelta(obj *ssa.Alloc, field int, st *ssa.Store) ([]*Pie
 	// read with s itself, so that a payload appended here is the same Piece as
 	// wherever else the owner's streamer meets that value
 	mk := &Piece{Kind: "zero", Width: 0}
+	if s.directLoads == nil {
+		s.directLoads = map[*ssa.Store][]*ssa.UnOp{}
+	}
 	oldAcc, oldStore := s.acc, s.accStore
 	s.acc = &accCtx{ptr: obj, field: field, marker: mk, cur: []*Piece{mk}}
 	acc := s.acc
@@ -268,6 +293,7 @@ func (s *Streamer) directDelta(obj *ssa.Alloc, field int, st *ssa.Store) ([]*Pie
 	}
 	ps := s.Stream(st.Val)
 	s.acc, s.accStore = oldAcc, oldStore
+	s.directLoads[st] = acc.loads
 	// whatever was memoised with the marker in it must not be served again
 	for v, mps := range s.memo {
 		if before[v] {
@@ -366,6 +392,12 @@ func (s *Streamer) calleeDelta(call *ssa.Call, f *ssa.Function, prm ssa.Value, f
 	t.accStore = func(x *ssa.Store) bool { return t.acc.isField(x.Addr) }
 	for _, in := range f.Blocks[0].Instrs {
 		switch x := in.(type) {
+		case *ssa.UnOp:
+			// a load of the accumulator denotes its content at this point, whenever
+			// the loaded value is used later
+			if x.Op == token.MUL && t.acc.isField(x.X) {
+				t.memo[x] = append([]*Piece(nil), t.acc.cur...)
+			}
 		case *ssa.Store:
 			if !t.acc.isField(x.Addr) {
 				continue
